@@ -18,6 +18,11 @@ Definition transform_of (code : Z) : option (pyval -> tres) :=
   | 4 => Some (fun v => of_res (py_sub (lit 10) v))                                             (* SUB(10, $) *)
   | 5 => Some (fun v => if py_truth v then of_res (py_truediv (lit 1) v) else TErr)             (* DIV(1, $) *)
   | 6 => Some (fun v => of_res (py_truediv v (lit 4)))                                          (* DIV($, 4) *)
+  | 7 => Some (fun v => if py_truth v then of_res (py_mod (lit 7) v) else TErr)                 (* MOD(7, $): fails at 0 *)
+  | 8 => Some (fun v => match py_sub v (lit 3) with                                             (* DIV($, SUB($, 3)): fails at 3 *)
+                        | POk s => if py_truth s then of_res (py_truediv v s) else TErr
+                        | PErr _ => TErr
+                        end)
   | _ => None
   end.
 
